@@ -37,6 +37,7 @@ import (
 	"strings"
 	"time"
 
+	"github.com/ipfs/ipfs-cluster/api/rest"
 	"github.com/ipfs/ipfs-cluster/config"
 	crypto "github.com/libp2p/go-libp2p-core/crypto"
 	peer "github.com/libp2p/go-libp2p-core/peer"
@@ -309,6 +310,7 @@ func identBoundary(tier string) {
 		runDisp(t.name)
 	}
 	utilBoundary()
+	rlibBoundary()
 }
 
 func identRandom(k int) {
@@ -755,4 +757,84 @@ func utilRandom(r *common.Rng) {
 		cur = append(cur, int64(r.Intn(1000)))
 	}
 	runPdur(a, cur)
+}
+
+// ---------- restapi's libp2p identity (id, private_key, libp2p_listen_multiaddress: all or none, ID must match the key) ----------
+//
+//	C15 rlib id=<-|i0|i1|ibad> key=<-|k0|k1|kb64|kbytes> addr=<0|1> => res=.. sid=.. skey=.. valid=.. saved=<id>:<key> rres=..
+func runRlib(idT, keyT, addr string) {
+	s := byName["restapi"]
+	if s == nil || s.bad || !identSetup() {
+		return
+	}
+	idS, idP, ok1 := idText(idT)
+	keyS, keyP, ok2 := keyText(keyT)
+	if !ok1 || !ok2 {
+		return
+	}
+	m := clone(s.base).(map[string]interface{})
+	delete(m, "id")
+	delete(m, "private_key")
+	delete(m, "libp2p_listen_multiaddress")
+	if idP {
+		m["id"] = idS
+	}
+	if keyP {
+		m["private_key"] = keyS
+	}
+	if addr == "1" {
+		m["libp2p_listen_multiaddress"] = []interface{}{"/ip4/127.0.0.1/tcp/19096"}
+	}
+	obj := &rest.Config{}
+	res := guard(func() error { return obj.LoadJSON([]byte(compact(m))) })
+	sid, skey, saved, rres := "-", "-", "-", "-"
+	valid := 0
+	if res == "ok" {
+		sid, skey = idIndex(obj.ID), keyIndex(obj.PrivateKey)
+		if guard(obj.Validate) == "ok" {
+			valid = 1
+		}
+		if bs, r := toJSON(obj); r != "ok" {
+			saved = r
+		} else {
+			var j struct {
+				ID  string `json:"id"`
+				Key string `json:"private_key"`
+			}
+			saved = "x:x"
+			if json.Unmarshal(bs, &j) == nil {
+				it, kt := "ibad", "kbad"
+				if j.ID == "" {
+					it = "-"
+				}
+				if j.Key == "" {
+					kt = "-"
+				}
+				for i, p := range pairs {
+					if p.idS == j.ID {
+						it = "i" + strconv.Itoa(i)
+					}
+					if p.keyS == j.Key {
+						kt = "k" + strconv.Itoa(i)
+					}
+				}
+				saved = it + ":" + kt
+			}
+			fresh := &rest.Config{}
+			rres = guard(func() error { return fresh.LoadJSON(bs) })
+			if rres == "ok" && (fresh.ID != obj.ID || keyIndex(fresh.PrivateKey) != skey) {
+				rres = "changed"
+			}
+		}
+	}
+	out.Line("C15 rlib id=%s key=%s addr=%s => res=%s sid=%s skey=%s valid=%d saved=%s rres=%s", idT, keyT, addr, res, sid, skey, valid, saved, rres)
+}
+
+func rlibBoundary() {
+	for _, i := range []string{"-", "i0", "i1", "ibad"} {
+		for _, k := range []string{"-", "k0", "k1", "kb64", "kbytes"} {
+			runRlib(i, k, "0")
+			runRlib(i, k, "1")
+		}
+	}
 }
